@@ -149,3 +149,11 @@ def deflate_opt():
     cfg = st.fixed_dictionaries({"sb": st.sampled_from([15, 15, 8, 9, 12]), "cb": st.sampled_from([15, 15, 8, 9, 12]),
                                  "snct": st.booleans(), "cnct": st.booleans()})
     return weighted([(3, st.just(False)), (1, st.just(True)), (2, cfg)])
+
+
+def prelude(weight_none=4):
+    """An earlier connection in the same process (see build.prelude): mostly none."""
+    from .build import PRELUDE_KINDS
+    spec = st.fixed_dictionaries({"kind": st.sampled_from(PRELUDE_KINDS), "same": st.booleans(),
+                                  "end": st.sampled_from(["eof", "eof", "reset"])})
+    return weighted([(weight_none, st.none()), (1, spec)])
